@@ -132,8 +132,7 @@ def run(chk):
     for fi, (name, d, nets) in enumerate(fams):
         for k in range(n):
             jobs.append((name, d, 1000 * (chk.seed + 1) + 100 * fi + k, nets, 300, 2000, True))
-    with mp.get_context('fork').Pool(min(16, os.cpu_count() or 4)) as pool:
-        res = pool.map(one_run, jobs, chunksize=1)
+    res = common.pool_map(one_run, jobs)
     stats_list = []
     for r in res:
         if 'error' in r:
